@@ -390,8 +390,19 @@ func (r *run) exec(sc Scenario, w *rec.Writer) error {
 	}
 	vhook.Set(r.hook)
 	defer vhook.Set(nil)
-	ma := multiplex.Multiplex(cutA, multiplex.WithReadQueueLength(sc.QLen), multiplex.WithBlockedRead())
-	mb := multiplex.Multiplex(cutB, multiplex.WithReadQueueLength(sc.QLen), multiplex.WithBlockedRead())
+	// every third scenario: ends that were never blocked. Unblock() is called on them all the same further down -
+	// documented as releasing a blocked reader, it has nothing to do on these (MuxTable.Unblock: once, later calls
+	// and calls on an unblocked end do nothing); the connections are open at both ends before anybody writes
+	aopts := []multiplex.Option{multiplex.WithReadQueueLength(sc.QLen)}
+	bopts := []multiplex.Option{multiplex.WithReadQueueLength(sc.QLen)}
+	if r.scn%3 != 2 {
+		aopts = append(aopts, multiplex.WithBlockedRead())
+	}
+	if r.scn%3 != 2 || r.scn%2 == 0 {
+		bopts = append(bopts, multiplex.WithBlockedRead())
+	}
+	ma := multiplex.Multiplex(cutA, aopts...)
+	mb := multiplex.Multiplex(cutB, bopts...)
 	r.cur.Lock()
 	r.muxA, r.muxB = ma, mb
 	r.cur.Unlock()
@@ -420,11 +431,14 @@ func (r *run) exec(sc Scenario, w *rec.Writer) error {
 	}); !ok {
 		r.ev("accept", "n", 1, "got", false, "class", "", "hung", true)
 	}
-	acc2 := make(chan string, 1)
-	go func() {
-		_, e := la.Accept()
-		acc2 <- errClass(e)
-	}()
+	// two accepters blocked at once: closing the listener releases both
+	acc2 := make(chan string, 2)
+	for k := 0; k < 2; k++ {
+		go func() {
+			_, e := la.Accept()
+			acc2 <- errClass(e)
+		}()
+	}
 
 	// expected bytes per reader
 	expect := map[string]int{}
@@ -550,6 +564,9 @@ func (r *run) exec(sc Scenario, w *rec.Writer) error {
 	}
 	r.muxA.Unblock()
 	r.muxB.Unblock()
+	if r.scn%4 == 1 {
+		r.muxA.Unblock() // a second call does nothing
+	}
 	done := make(chan struct{})
 	go func() { wg.Wait(); close(done) }()
 	select {
@@ -558,6 +575,31 @@ func (r *run) exec(sc Scenario, w *rec.Writer) error {
 	}
 	cwg.Wait()
 	r.ev("quiet")
+	// one id opened from several goroutines at once (a dialer and a listener for it, say), a dozen fresh ids: every
+	// handle handed out is a connection of this multiplexer - it fails with it like any other (checked below)
+	racers := map[net.Conn]int{}
+	{
+		var rmu sync.Mutex
+		for round := 0; round < 12; round++ {
+			id := 2000 + round
+			start := make(chan struct{})
+			var rw sync.WaitGroup
+			for k := 0; k < 6; k++ {
+				rw.Add(1)
+				go func() {
+					defer rw.Done()
+					<-start
+					if c, err := r.muxA.Open(multiplex.ConnID(id)); err == nil {
+						rmu.Lock()
+						racers[c] = id
+						rmu.Unlock()
+					}
+				}()
+			}
+			close(start)
+			rw.Wait()
+		}
+	}
 	// after the run: on a broken multiplexer everything must fail promptly; Close is idempotent
 	broken := sc.Fault != "none"
 	if broken {
@@ -602,6 +644,25 @@ func (r *run) exec(sc Scenario, w *rec.Writer) error {
 		ok, ms := timed(watchdog, func() { _, e = c.Write([]byte("x")) })
 		r.ev("post.write", "end", end, "conn", id, "class", errClass(e), "hung", !ok, "ms", ms)
 	}
+	for c, id := range racers {
+		var e error
+		ok, _ := timed(watchdog, func() { _, e = c.Read(make([]byte, 16)) })
+		r.ev("post.read", "end", "A", "conn", id, "class", errClass(e), "hung", !ok, "reads", 0)
+		if !ok {
+			break // one hang is a verdict
+		}
+	}
+	// a connection opened now, on the closed multiplexer: refused, or at least one that fails like the others
+	{
+		c, err := r.muxA.Open(multiplex.ConnID(3000))
+		hung, cls := false, ""
+		if err == nil && c != nil {
+			var e error
+			ok, _ := timed(watchdog, func() { _, e = c.Read(make([]byte, 16)) })
+			hung, cls = !ok, errClass(e)
+		}
+		r.ev("post.open", "refused", err != nil, "class", cls, "hung", hung)
+	}
 	// the listener is closed by several goroutines at once (closing concurrently never panics or hangs)
 	{
 		var cw sync.WaitGroup
@@ -628,13 +689,36 @@ func (r *run) exec(sc Scenario, w *rec.Writer) error {
 		if ok, _ := timed(watchdog, cw.Wait); !ok {
 			r.ev("accept", "n", 3, "got", false, "class", "", "hung", true)
 		}
+		if i%20 == 0 {
+			// closed before anybody accepted: a later Accept returns at once (the connection, closed by now, may
+			// still be handed out once), the one after it reports end-of-file
+			var e error
+			if ok, _ := timed(watchdog, func() { l.Accept(); _, e = l.Accept() }); !ok {
+				r.ev("accept", "n", 5, "got", false, "class", "", "hung", true)
+				pb.Close()
+				break // one hang is a verdict; every further one would cost another watchdog period
+			} else {
+				r.ev("accept", "n", 5, "got", false, "class", errClass(e), "hung", false)
+			}
+		}
 		pb.Close()
 	}
-	select {
-	case cls := <-acc2:
-		r.ev("accept", "n", 2, "got", false, "class", cls, "hung", false)
-	case <-time.After(watchdog):
-		r.ev("accept", "n", 2, "got", false, "class", "", "hung", true)
+	for k := 0; k < 2; k++ {
+		select {
+		case cls := <-acc2:
+			r.ev("accept", "n", 2, "got", false, "class", cls, "hung", false)
+		case <-time.After(watchdog):
+			r.ev("accept", "n", 2, "got", false, "class", "", "hung", true)
+		}
+	}
+	// and an Accept after the close: end-of-file, at once
+	{
+		var e error
+		if ok, _ := timed(watchdog, func() { _, e = la.Accept() }); !ok {
+			r.ev("accept", "n", 4, "got", false, "class", "", "hung", true)
+		} else {
+			r.ev("accept", "n", 4, "got", false, "class", errClass(e), "hung", false)
+		}
 	}
 	r.ev("End")
 	vhook.Set(nil)
